@@ -5,6 +5,7 @@ from . import dump
 from .interp import Program, Explorer, World, Interp
 from .summaries import S
 from . import summaries_str  # registers str/char summaries
+from . import summaries_fmt  # registers core::fmt summaries (after summaries_str: replaces the placeholder `format`)
 
 _cache = {}
 
